@@ -367,9 +367,9 @@ func c13Reply4(r c13Reply, si int, xid []byte, chaddr net.HardwareAddr, serial i
 		return []byte{2, 1, 6, 0, byte(serial)}
 	}
 	p, _ := dhcpv4.New()
-	p.OpCode = dhcpv4.OpcodeBootReply
+	p.OpCode = dhcpv4.OpcodeType(2) // BOOTREPLY by its RFC 951 value, not by the library's constant
 	if r.Op == 1 {
-		p.OpCode = dhcpv4.OpcodeBootRequest
+		p.OpCode = dhcpv4.OpcodeType(1)
 	}
 	copy(p.TransactionID[:], xid)
 	if r.Xid == 1 {
